@@ -146,11 +146,15 @@ class Ctx:
             lines.append(f"VIOLATION property={self.prop} replay={path}  # bounded stand-in: {bf['name']} {bf['what']}")
         # expected obligation names (vacuity guard)
         missing = []
+        names = {r.name for r in self.results}
+        exp_path = os.path.join(VERIF, 'expected', f'{self.prop}.json')
+        if os.environ.get('VERIF_WRITE_EXPECTED') == '1':      # developer action, never set by a registered command
+            os.makedirs(os.path.dirname(exp_path), exist_ok=True)
+            with open(exp_path, 'w') as f: json.dump(sorted(names), f)
         try:
-            with open(EXPECTED_PATH) as f: exp = json.load(f).get(self.prop)
+            with open(exp_path) as f: exp = json.load(f)
         except FileNotFoundError:
             exp = None
-        names = {r.name for r in self.results}
         if exp is not None:
             missing = sorted(set(exp) - names)
         n_ob = len(self.results)
